@@ -680,10 +680,24 @@ pub(crate) struct SyncConfig {
 
 impl Default for SyncConfig {
     fn default() -> Self {
+        #[cfg(iroh_docs_verif)]
+        if let Some((max_set_size, split_factor)) = crate::verif::sync_config() {
+            return SyncConfig {
+                max_set_size,
+                split_factor,
+            };
+        }
         SyncConfig {
             max_set_size: 1,
             split_factor: 2,
         }
+    }
+}
+
+#[cfg(iroh_docs_verif)]
+impl SyncConfig {
+    pub(crate) fn verif_parts(&self) -> (usize, usize) {
+        (self.max_set_size, self.split_factor)
     }
 }
 
